@@ -30,13 +30,22 @@ MaxRtFails(e) ==
     ELSE IF e.out = MaxResponseTime(e.in.rs) THEN {} ELSE {"first_error_else_max"}
 
 \* ---- C06 -------------------------------------------------------------------
+\* scenarios taken from the repository's own unit tests carry the value pinned there (in.expect, -1 = no bound):
+\* the defining equations of this specification must evaluate to it (a check of the specification against an
+\* oracle that is independent of both the library's search code and this module)
+RtaSuiteFails(e, v) ==
+    IF "expect" \notin DOMAIN e.in THEN {}
+    ELSE IF (v = NONE /\ e.in.expect = -1) \/ (v # NONE /\ v = e.in.expect) THEN {}
+    ELSE {"spec_reproduces_pinned_suite_value"}
+
 RtaFails(e) ==
     IF "panic" \in DOMAIN e.out \/ "hang" \in DOMAIN e.out THEN {"returns"}
     ELSE LET v == RtaDef(e.in)
-         IN IF v = NONE
-            THEN (IF IsErr(e.out) THEN {} ELSE {"err_iff_no_fixed_point"})
-            ELSE (IF IsOk(e.out) THEN (IF e.out.ok = v THEN {} ELSE {"equals_exhaustive_evaluation"})
-                  ELSE {"err_iff_no_fixed_point"})
+         IN RtaSuiteFails(e, v) \cup
+            (IF v = NONE
+             THEN (IF IsErr(e.out) THEN {} ELSE {"err_iff_no_fixed_point"})
+             ELSE (IF IsOk(e.out) THEN (IF e.out.ok = v THEN {} ELSE {"equals_exhaustive_evaluation"})
+                   ELSE {"err_iff_no_fixed_point"}))
 
 \* ---- C07 -------------------------------------------------------------------
 \* the least-WCET term of the callback under analysis must not exceed the smallest job cost that its
@@ -50,6 +59,7 @@ Ros2LwFails(e) ==
 Ros2Fails(e) ==
     IF "panic" \in DOMAIN e.out \/ "hang" \in DOMAIN e.out THEN {"returns"}
     ELSE Ros2LwFails(e) \cup
+         RtaSuiteFails(e, Ros2Def(e.op, e.in)) \cup
          LET v == Ros2Def(e.op, e.in)
              agrees == IF v = NONE THEN IsErr(e.out) ELSE (IsOk(e.out) /\ e.out.ok = v)
          IN IF agrees THEN {}
